@@ -94,22 +94,22 @@ type gList struct {
 }
 
 type gState struct {
-	events  []*gEvt
-	cur     int // index of the event whose (last) token is the current token
-	peekEq  int64
-	peekNot map[int64]bool
-	fields  map[string]gVal
+	events   []*gEvt
+	cur      int // index of the event whose (last) token is the current token
+	peekEq   int64
+	peekNot  map[int64]bool
+	fields   map[string]gVal
 	fieldOrd []string
-	locals  map[types.Object]gVal
-	lists   []*gList
-	structs []map[string]gVal
-	ctl     int // 0 none, 1 break, 2 continue, 3 return
-	ret     []gVal
-	errRec  bool // an error-recording call happened on the path
-	failed  bool
+	locals   map[types.Object]gVal
+	lists    []*gList
+	structs  []map[string]gVal
+	ctl      int // 0 none, 1 break, 2 continue, 3 return
+	ret      []gVal
+	errRec   bool // an error-recording call happened on the path
+	failed   bool
 	tolerant bool // the path depends on the tolerant-mode flag being set (an error path in strict mode: R13.1)
-	notes   []string
-	depth   int
+	notes    []string
+	depth    int
 }
 
 const (
@@ -150,33 +150,33 @@ func (s *gState) clone() *gState {
 
 // gPath is one successful path of a parse method.
 type gPath struct {
-	events []*gEvt
-	fields map[string]gVal
-	lists  []*gList
+	events  []*gEvt
+	fields  map[string]gVal
+	lists   []*gList
 	structs []map[string]gVal
-	notes  []string
+	notes   []string
 }
 
 type gMethod struct {
-	method   *types.Func
-	node     string
-	paths    []*gPath
-	failures int // paths ending in a nil return / recorded error (not compared)
+	method       *types.Func
+	node         string
+	paths        []*gPath
+	failures     int // paths ending in a nil return / recorded error (not compared)
 	tolerantOnly int // paths taken only when the tolerant-mode flag is set (not compared: strict mode records an error there)
-	dropped  int // paths cut by the unrolling bound
-	issues   []string
+	dropped      int // paths cut by the unrolling bound
+	issues       []string
 }
 
 type gx struct {
-	c       *Ctx
-	t       *tables
-	info    *types.Info
-	node    string
-	recvObj types.Object // the *Parser receiver of the method being walked (and of inlined helpers)
-	binds   []map[types.Object]int64 // token.Type parameters of inlined helpers bound to constants
-	issues  map[string]bool
-	gm      *gMethod
-	maxIter int
+	c           *Ctx
+	t           *tables
+	info        *types.Info
+	node        string
+	recvObj     types.Object             // the *Parser receiver of the method being walked (and of inlined helpers)
+	binds       []map[types.Object]int64 // token.Type parameters of inlined helpers bound to constants
+	issues      map[string]bool
+	gm          *gMethod
+	maxIter     int
 	tolerantFld *types.Var
 }
 
@@ -1244,13 +1244,14 @@ func cloneLocals(m map[types.Object]gVal) map[types.Object]gVal {
 // ---- roles of parser functions, resolved from their bodies ---------------------------------------------------
 
 // parserRoles classifies the functions of package parser by their effect on the token stream:
-//   advance    — the function whose body is `CurrentToken = PeekToken; PeekToken = lexer.NextToken()`
-//   expect     — func(token.Type) bool: advances iff the peek token has that type, otherwise records an error
-//   semi       — func() bool that accepts the statement separator (the function R2.4a analyses)
-//   error      — records a ParserError
-//   subparse   — returns a node / Expression / Statement and (transitively) consumes tokens
-//   listhelper — returns a slice of nodes and consumes tokens
-//   noconsume  — does not reach the advance function
+//
+//	advance    — the function whose body is `CurrentToken = PeekToken; PeekToken = lexer.NextToken()`
+//	expect     — func(token.Type) bool: advances iff the peek token has that type, otherwise records an error
+//	semi       — func() bool that accepts the statement separator (the function R2.4a analyses)
+//	error      — records a ParserError
+//	subparse   — returns a node / Expression / Statement and (transitively) consumes tokens
+//	listhelper — returns a slice of nodes and consumes tokens
+//	noconsume  — does not reach the advance function
 func (c *Ctx) parserRoles() map[*types.Func]string {
 	if c.roles != nil {
 		return c.roles
